@@ -24,6 +24,36 @@ def drvStep (_ : Unit) (args : List String) : Unit × String :=
       let r := sweep 0 0 as
       ((), s!"{requests 0 as} " ++ (if r.isEmpty then "-" else joinWith "," (r.map fun p => s!"{p.1}{if p.2 then "r" else "f"}")))
     | none => ((), "bad-op")
+  | ["advance", c, m] =>
+    match c.toNat?, m.toNat? with
+    | some c, some m => ((), toString (advance c m))
+    | _, _ => ((), "bad-op")
+  | "rpc" :: toks =>
+    -- rpcServer.RecoverAccounts: RecoverAccount for every account the sweep returned, errors are counted
+    let parse (tok : String) : Option (Nat × Op) :=
+      match tok.splitOn ":" with
+      | [k, kind, srv, ver, knows, tx] =>
+        match k.toNat?, srv.toNat?, ver.toNat?, bool? knows, tx.toNat? with
+        | some k, some srv, some ver, some knows, some tx =>
+          if kind == "f" then
+            let a0 := recovered srv ⟨tx, 1⟩ 500000 5000 ver 2 900 none
+            let t : Tx := { id := tx, spends := [], outs := [(1, a0.out k)], signed := true, wit := 0 }
+            some (k, .recover (recovered srv ⟨tx, 1⟩ 500000 5000 ver 2 900 (some t)) [])
+          else if kind == "r" then
+            let a : Acct := { state := .initiated, outpoint := ⟨0, 0⟩, value := 500000, expiry := 5000,
+                              version := ver, bk := 0, heightHint := 900, latestTx := none }
+            let t : Tx := { id := tx, spends := [], outs := [(1, a.out k)], signed := true, wit := 0 }
+            some (k, .recover a (if knows then [t] else []))
+          else none
+        | _, _, _, _, _ => none
+      | _ => none
+    match toks.mapM parse with
+    | none => ((), "bad-op")
+    | some l =>
+      let r := l.foldl (fun (acc : Drv × Nat) (p : Nat × Op) =>
+        let x := acc.1.apply p.1 p.2
+        (x.1, if x.2 == Res.ok then acc.2 + 1 else acc.2)) (({} : Drv), 0)
+      ((), render {} r.1 s!"ok {r.2}")
   | ["recoverres", key, ver, knows, wf] =>
     -- reservation-only account (incompleteAcctFromErr): initiated, initial batch key, no outpoint / tx
     match key.toNat?, ver.toNat?, bool? knows, bool? wf with
